@@ -283,6 +283,48 @@ class TableFacts(object):
             domain = [s for s in self.ALL if s != self.UNSET]
         atomizer = Atomizer(self, f, ws_param, ev_param)
         out = {}
+        if which == "task.item":
+            try:
+                out = self._symbolic_leaves(f, template, domain, ev_param, atomizer)
+            except AnalysisError as symbolic_failure:
+                # a shape the symbolic enumerator does not model (loops with flags, a table of
+                # groups ...): interpret the function over representative item lists instead
+                from sa import replay
+                sets = replay.status_sets_in(self.prog, f, self.ALL) | {
+                    IN_FLIGHT, PAUSEDISH, frozenset(["canceled"]), frozenset(self.ABENDED),
+                    frozenset(self.COMPLETED), frozenset(["succeeded"]), frozenset([self.UNSET])}
+                classes = status_classes(self.ALL, sorted(sets, key=sorted))
+                try:
+                    out, unstable = replay.replay_item_leaves(self, f, template, domain, classes)
+                except AnalysisError as e2:
+                    raise AnalysisError("%s; %s" % (symbolic_failure, e2))
+                self.item_replay = {"reason": str(symbolic_failure), "classes": len(classes),
+                                    "order_dependent": unstable}
+            self._leaves[which] = out
+            return out
+        if which == "task.request":
+            try:
+                out = self._symbolic_leaves(f, template, domain, ev_param, atomizer)
+            except AnalysisError as symbolic_failure:
+                from sa import replay
+                sets = replay.status_sets_in(self.prog, f, self.ALL) | {
+                    IN_FLIGHT, frozenset(self.COMPLETED)}
+                classes = status_classes(self.ALL, sorted(sets, key=sorted))
+                try:
+                    out, unstable = replay.replay_request_leaves(self, f, template, domain,
+                                                                 classes)
+                except AnalysisError as e2:
+                    raise AnalysisError("%s; %s" % (symbolic_failure, e2))
+                self.request_replay = {"reason": str(symbolic_failure), "classes": len(classes),
+                                       "order_dependent": unstable}
+            self._leaves[which] = out
+            return out
+        out = self._symbolic_leaves(f, template, domain, ev_param, atomizer)
+        self._leaves[which] = out
+        return out
+
+    def _symbolic_leaves(self, f, template, domain, ev_param, atomizer):
+        out = {}
         for s in domain:
             bindings = {
                 "%s.name" % ev_param: template % s,
@@ -307,7 +349,6 @@ class TableFacts(object):
                             "predicates the analysis understands" % (f.qualname, atom[1]))
                 lv.append((value, decisions))
             out[s] = lv
-        self._leaves[which] = out
         return out
 
 
@@ -572,6 +613,22 @@ def build_meaning(facts, which, spec_sets, bool_atoms, extra_dims=None, constrai
                             for a, _ in decisions if a[0] == "wf_status_eq"})
         wf_rows = (mentioned + [WF_OTHER]) if mentioned else [None]
         m.wf_mentioned = frozenset(mentioned)
+    # leaves produced by replay give the name for every complete presence vector: look it up
+    fast = None
+    rp = getattr(facts, "item_replay", None)
+    if which == "task.item" and rp is not None and not bools:
+        fast = {}
+        for s, lv in leaves.items():
+            if len(lv) == 1 and not lv[0][1]:
+                for r in range(len(classes) + 1):
+                    for combo in itertools.combinations(classes, r):
+                        fast.setdefault((s, frozenset(combo)), set()).add(lv[0][0])
+                continue
+            for name, decisions in lv:
+                key = frozenset(a[1] for a, v in decisions if v)
+                fast.setdefault((s, key), set()).add(name)
+        if any(c not in set(classes) for (_s, key) in fast for c in key):
+            fast = None
     for s, lv in leaves.items():
         own = [c for c in classes if s in c]
         for r in range(len(classes) + 1):
@@ -582,6 +639,10 @@ def build_meaning(facts, which, spec_sets, bool_atoms, extra_dims=None, constrai
                         state = {"s": s, "present": present, "bools": dict(zip(bools, bvals)),
                                  "wf_status": wfs, "own": own[0] if own else None}
                         if constrain is not None and not constrain(state):
+                            continue
+                        if fast is not None:
+                            for name in fast.get((s, present), ()):
+                                m.add(name, state)
                             continue
                         hit = None
                         for name, decisions in lv:
@@ -1224,6 +1285,21 @@ def rule_T4a(facts):
     res = RuleResult("T4a", "a with-items task never completes or rests (paused/pending) while "
                             "another item is in flight")
     summ = item_summaries(facts)
+    rp = getattr(facts, "item_replay", None)
+    if rp is not None:
+        res.facts["item_contextualiser_replayed"] = {"reason": rp["reason"], "classes": rp["classes"]}
+        f_ = facts.contextualiser("TaskStateMachine", "add_context_to_task_item_event")
+        if rp["order_dependent"]:
+            s_, present_, names_ = rp["order_dependent"][0]
+            res.violated(("item order",), Finding(
+                "T4a", f_.file, f_.qualname, "event name depends on the position of the items",
+                "for an item reporting %s while the other items carry %s the generated event "
+                "name is %s depending on the order of the items (%d such states): what the "
+                "task does when an item ends must not depend on which item it is" % (
+                    s_, present_ or "nothing", " or ".join(names_), len(rp["order_dependent"])),
+                line=f_.node.lineno))
+        else:
+            res.holds(("item order",), "replayed in three orders per state")
     for r in facts.task:
         if r in facts.COMPLETED:
             continue
